@@ -3,6 +3,7 @@
 Refuting events: for a generated document and a position, get_open_tag /
 select_item_html / get_css_section / select_item_css differ from the generator's record of
 tags, attributes, class tokens, declarations, value tokens and before/after offsets."""
+import json
 from .. import core, gen_css, gen_html
 from . import C10
 
@@ -17,7 +18,7 @@ ASSUMPTIONS = ['generator bookkeeping self-checked; value tokens are the generat
                'that declaration: an editor convenience the statement neither requires nor forbids)',
                'values containing comments are not generated here (value tokens undefined)']
 FLOORS = {'quick': {'html:position': 25000, 'css:position': 25000}, 'thorough': {'html:position': 1000000, 'css:position': 1000000}}
-REQUIRED_MONITORS = ['oracle:get_open_tag', 'oracle:select_item_html', 'oracle:get_css_section', 'oracle:css-properties', 'oracle:select_item_css']
+REQUIRED_MONITORS = ['oracle:get_open_tag', 'oracle:select_item_html', 'oracle:get_css_section', 'oracle:css-properties', 'oracle:select_item_css', 'oracle:retained']
 NDOCS = {'quick': 32, 'thorough': 800}
 
 
@@ -51,6 +52,21 @@ def tag_model(src, r):
     return (r['open'][0], r['open'][1], ranges)
 
 
+def snap_tag(t):
+    return (t.name, t.type, t.start, t.end, tuple((a.name, a.name_start, a.name_end, a.value, a.value_start, a.value_end) for a in (t.attributes or [])))
+
+
+def snap_model(m):
+    return (m.start, m.end, [tuple(x) for x in m.ranges])
+
+
+def snap_section(s):
+    return json.dumps(s.to_json(), sort_keys=True, default=repr)
+
+
+HELD = core.Retained(every=9)
+
+
 def check_html(src, recs, ctx, au, positions=None):
     docase = {'lang': 'html', 'src': src, 'truth': gen_html.to_json(recs)}
     tags = sorted(recs, key=lambda r: r['open'][0])
@@ -69,6 +85,7 @@ def check_html(src, recs, ctx, au, positions=None):
             ctx.violation('exception', dict(case, fn='get_open_tag'), {'exc': list(core.exc_site(r[1]))})
         else:
             t = r[1]
+            HELD.keep(t, snap_tag, case, 'get_open_tag')
             if inside:
                 e = inside[0]
                 etype = 3 if e['selfclosed'] else 1
@@ -91,6 +108,7 @@ def check_html(src, recs, ctx, au, positions=None):
                 ctx.violation('exception', dict(case, fn='select_item_html', prev=is_prev), {'exc': list(core.exc_site(r[1]))})
                 continue
             m = r[1]
+            HELD.keep(m, snap_model, dict(case, prev=is_prev), 'select_item_html')
             if is_prev:
                 c = [x for x in models if x[0] < pos]
                 e = c[-1] if c else None
@@ -151,6 +169,7 @@ def check_css(src, recs, ctx, au, positions=None):
             ctx.violation('exception', dict(case, fn='get_css_section'), {'exc': list(core.exc_site(r[1]))})
         else:
             s = r[1]
+            HELD.keep(s, snap_section, case, 'get_css_section')
             strict = [x for x in rules if x['start'] < pos < x['end']]
             touching = [x for x in rules if x['start'] <= pos <= x['end']]
             if s is None:
@@ -208,6 +227,7 @@ def check_css(src, recs, ctx, au, positions=None):
                 ctx.violation('exception', dict(case, fn='select_item_css', prev=is_prev), {'exc': list(core.exc_site(r[1]))})
                 continue
             m = r[1]
+            HELD.keep(m, snap_model, dict(case, prev=is_prev), 'select_item_css')
             if is_prev:
                 c = [x for x in models if x[0] < pos]
                 e = c[-1] if c else None
@@ -300,10 +320,21 @@ def run_shard(desc, ctx):
             for sp in sorted(rng.sample(spots, min(len(spots), rng.randint(1, 3))), reverse=True):
                 s2 = s2[:sp] + rng.choice(FILLERS) + s2[sp:]
             check_css_sanity(s2, ctx, au)
+        if len(HELD.items) > 150:
+            # results kept by the caller are read again after the calls on these documents
+            HELD.verify(ctx)
+    HELD.verify(ctx)
 
 
 def replay(case, ctx):
     from emmet import action_utils as au
+    if case.get('retained'):
+        if case['lang'] == 'html':
+            check_html(case['src'], gen_html.from_json(case['truth']), ctx, au)
+        else:
+            check_css(case['src'], C10.from_json(case['truth']), ctx, au)
+        HELD.verify(ctx)
+        return
     if case['lang'] == 'css-statements':
         check_css_sanity(case['src'], ctx, au)
         return
